@@ -55,6 +55,8 @@ pub fn spin_and_get_forwarded_object<VM: VMBinding>(
 ) -> ObjectReference {
     let mut forwarding_bits = forwarding_bits;
     while forwarding_bits == BEING_FORWARDED {
+        #[cfg(mmtk_verif)]
+        crate::util::verif::rt::spin_hint(crate::util::verif::rt::site::SPIN_FORWARDING);
         forwarding_bits = get_forwarding_status::<VM>(object);
     }
 
